@@ -136,6 +136,43 @@ def load_case(ctx: Ctx):
     return rp
 
 
+def inject_request(ctx: Ctx, rp, k: int):
+    """a co-simulation client adding a request between calls through the public state operations
+    (simulation_state_ops.add_request_safe): the file reader's fleet-membership admission rule does not apply,
+    so a fleets scenario can hold requests of no fleet this way."""
+    import h3
+    from nrel.hive.model.request.request import Request
+    from nrel.hive.state.simulation_state import simulation_state_ops as sso
+    from returns.result import Failure
+
+    o = ctx.opts["inject_requests"]
+    if k % int(o.get("every", 7)) != 0 or not ctx.spec.get("requests"):
+        return rp
+    src = ctx.spec["requests"][(k * 7 + 3) % len(ctx.spec["requests"])]
+    fleet = None
+    if not o.get("public", True) and ctx.spec.get("fleets"):
+        fleet = sorted(ctx.spec["fleets"])[k % len(ctx.spec["fleets"])]
+    try:
+        req = Request.build(
+            request_id=f"inj{k}",
+            origin=h3.geo_to_h3(src["o"][0], src["o"][1], 15),
+            destination=h3.geo_to_h3(src["d"][0], src["d"][1], 15),
+            road_network=rp.s.road_network,
+            departure_time=rp.s.sim_time,
+            passengers=1,
+            allows_pooling=False,
+            fleet_id=fleet,
+            value=3.0,
+        )
+    except Exception:
+        return rp
+    res = sso.add_request_safe(rp.s, req)
+    if isinstance(res, Failure):
+        return rp
+    ctx.count("injected_requests")
+    return rp._replace(s=res.unwrap())
+
+
 def cleanup(ctx: Ctx):
     try:
         os.chdir("/")
@@ -182,6 +219,9 @@ def run_trace(case: Dict[str, Any]) -> Dict[str, Any]:
             ctx.k = k
             ctx.t = int(rp.s.sim_time)
             ctx.prev = rp.s
+            if ctx.opts.get("inject_requests"):
+                rp = inject_request(ctx, rp, k)
+                ctx.prev = rp.s
             with quiet_stdout():
                 rp = hc.crank(rp, 1).runner_payload
             ctx.rp = rp
